@@ -1114,6 +1114,8 @@ class Engine:
         table = {'int': INT, 'float': REAL, 'str': STR, 'bool': BOOL}
         if isinstance(v.ty, TAbs):
             return mk_bool(tn == v.ty.name)
+        if isinstance(v.ty, TOpt) and isinstance(v.ty.inner, TAbs) and tn not in ('int', 'float', 'str', 'bool'):
+            return V(BOOL, z3.And(z3.Not(v.ty.is_none(v.t)), z3.BoolVal(tn == v.ty.inner.name)))
         if isinstance(v.ty, TRec) and self.ctors.get(tn) == v.ty.name:
             return mk_bool(True)       # a parameter typed as the record IS an instance of its class (contract `params`)
         if isinstance(v.ty, TRec) and v.ty.name in self.unions:
